@@ -23,8 +23,16 @@ import (
 // ---- schema ------------------------------------------------------------------------------
 
 type sField struct {
-	Name string
+	Name string // storage key of the field = its name in the schema text, the model and the field checker
 	Ptr  bool
+	Sym  string // symbol name when it differs from the storage key (AddSymbolWithKey); "" = same
+}
+
+func (f sField) symName() string {
+	if f.Sym != "" {
+		return f.Sym
+	}
+	return f.Name
 }
 
 type sCons struct {
@@ -232,6 +240,7 @@ type harnessDb struct {
 	stores map[string]*gStore
 
 	mu      sync.Mutex
+	symToKey map[string]string // symbol name -> storage key, for symbols declared with a different key
 	vetoes  map[string]bool // "store/C|U|D/id"
 	events  []string
 	raised  int // vetoes actually raised by the harness constraint in the current transaction
@@ -281,7 +290,7 @@ func openHarnessDb(w *wiring, dir string) (*harnessDb, error) {
 	if err != nil {
 		return nil, err
 	}
-	h := &harnessDb{w: w, db: db, path: path, stores: map[string]*gStore{}, vetoes: map[string]bool{}}
+	h := &harnessDb{w: w, db: db, path: path, stores: map[string]*gStore{}, vetoes: map[string]bool{}, symToKey: map[string]string{}}
 
 	// stores: roots first, then children
 	for pass := 0; pass < 2; pass++ {
@@ -359,9 +368,12 @@ func openHarnessDb(w *wiring, dir string) (*harnessDb, error) {
 			}
 			for _, f := range def.Fields {
 				if t, ok := fkTarget[def.Name+"."+f.Name]; ok {
-					gs.symbols[f.Name] = gs.AddFkSymbol(f.Name, h.stores[t])
+					gs.symbols[f.Name] = gs.AddFkSymbolWithKey(f.symName(), f.Name, h.stores[t])
 				} else {
-					gs.symbols[f.Name] = gs.AddSymbol(f.Name, ast.NodeTypeString)
+					gs.symbols[f.Name] = gs.AddSymbolWithKey(f.symName(), ast.NodeTypeString, f.Name)
+				}
+				if f.Sym != "" {
+					h.symToKey[f.Sym] = f.Name
 				}
 			}
 			for _, s := range def.Sets {
@@ -542,6 +554,9 @@ func (w *wiring) opText(op *hOp) string {
 		}
 	case "FAIL":
 		sb.WriteString("FAIL")
+	case "CT":
+		// for the model this is a failing step of the body; the implementation must reject the tags
+		fmt.Fprintf(&sb, "FAILT %s %s", op.Store, hxs(op.Id))
 	}
 	return sb.String()
 }
@@ -615,6 +630,14 @@ func (h *harnessDb) execOp(ctx boltz.MutateContext, op *hOp) error {
 		return gs.links[op.LinkF].RemoveLinks(ctx.Tx(), op.Id, op.Targets...)
 	case "FAIL":
 		return errors.New("caller error")
+	case "CT":
+		// a value the storage layer rejects (nested map in tags) among nil-valued and ordinary tags
+		e := h.entityFor(op)
+		e.Tags = map[string]interface{}{"nested": map[string]interface{}{"x": "y"}, "ok": "v", "n": int64(3)}
+		for i := 0; i < 12; i++ {
+			e.Tags[fmt.Sprintf("nil%d", i)] = nil
+		}
+		return gs.Create(ctx, e)
 	}
 	return errors.New("unknown op")
 }
@@ -643,11 +666,13 @@ func (h *harnessDb) runTx(t *hTx) string {
 			run = h.db.Batch
 		}
 	}
+	if t.PreCommitErr {
+		// registered on the context before it is handed to Update/Batch (bbolt's Batch re-runs a
+		// failing function on its own: the action must still be there for the re-run)
+		ctx.AddPreCommitAction(func(boltz.MutateContext) error { return errors.New("pre-commit action failed") })
+	}
 	err := run(ctx, func(ctx boltz.MutateContext) error {
 		results = nil // bbolt's Batch re-runs a failing function on its own
-		if t.PreCommitErr {
-			ctx.AddPreCommitAction(func(boltz.MutateContext) error { return errors.New("pre-commit action failed") })
-		}
 		for i := range t.Ops {
 			e := h.execOp(ctx, &t.Ops[i])
 			results = append(results, classify(e))
@@ -737,6 +762,9 @@ func (h *harnessDb) facts() []string {
 					}
 					_ = tb.ForEach(func(sk, sv []byte) error { // symbol
 						sb := tb.Bucket(sk)
+						if key, ok := h.symToKey[string(sk)]; ok { // index paths use the symbol name; facts use the storage key
+							sk = []byte(key)
+						}
 						if sb == nil {
 							out = append(out, "JUNK:idxsym:"+hx(sk))
 							return nil
